@@ -34,6 +34,8 @@ type PropConfig struct {
 	QuickTimeout  int      `json:"quick_timeout_s"`
 	Bounded       []BoundedCfg `json:"bounded"`
 	MinObligations int     `json:"min_obligations"`
+	Batch          bool    `json:"batch"`           // many small obligations per function instance: incremental scripts
+	BatchTimeout   int     `json:"batch_timeout_s"` // per-check timeout in batch mode (undecided checks are raced afterwards)
 }
 
 type BoundedCfg struct {
@@ -63,6 +65,19 @@ type oblResult struct {
 	Reason  string
 	Replay  string
 	Model   map[string]string
+	Solvers []string // all solvers that gave the expected answer (batch mode)
+	Nodes   int
+	Logic   string
+}
+
+func (r *oblResult) countSolvers(m map[string]int) {
+	if len(r.Solvers) > 0 {
+		for _, s := range r.Solvers {
+			m[s]++
+		}
+		return
+	}
+	m[r.Solver]++
 }
 
 var (
@@ -272,6 +287,28 @@ func run() int {
 			res.Reason = o.Err
 			continue
 		}
+		if o.Expect == "unsat" && o.Goal.IsTrue() {
+			// the goal folded to true during generation (constant-table instances): nothing left to prove
+			res.Status = "discharged"
+			res.Solver = "govc-simplifier"
+		}
+	}
+	tSolve := time.Now()
+	// phase 1: one incremental script per function instance, all three solvers on each
+	batchStats := &batchStat{BySolver: map[string]int{}}
+	if cfg.Batch {
+		bt := cfg.BatchTimeout
+		if bt == 0 {
+			bt = 3
+		}
+		batchStats = runBatches(eng, obls, results, tmp, bt)
+	}
+	// phase 2: whatever a batch left undecided is raced individually (with model extraction)
+	for i, o := range obls {
+		res := results[i]
+		if res.Status != "" {
+			continue
+		}
 		asserts := append([]*smt.Term(nil), o.Facts...)
 		if o.Expect == "sat" {
 			asserts = append(asserts, o.Goal)
@@ -284,7 +321,6 @@ func run() int {
 		}
 		res.Script = eng.C.Print(asserts, vals, smt.PrintOpts{Models: o.Expect != "sat"})
 	}
-	tSolve := time.Now()
 	var wg sync.WaitGroup
 	work := make(chan int)
 	for w := 0; w < 8; w++ {
@@ -354,14 +390,14 @@ func run() int {
 				fmt.Printf("NOTE: known finding %s no longer fails\n", r.O.Name)
 				claimed++
 				discharged++
-				bySolver[r.Solver]++
+				r.countSolvers(bySolver)
 			}
 			continue
 		}
 		claimed++
 		if r.Status == "discharged" {
 			discharged++
-			bySolver[r.Solver]++
+			r.countSolvers(bySolver)
 		} else {
 			failed = append(failed, r)
 		}
@@ -440,6 +476,10 @@ func run() int {
 				if r.Script != nil {
 					s["smt_nodes"] = r.Script.Nodes
 					s["logic"] = r.Script.Logic
+				} else if r.Nodes > 0 {
+					s["smt_nodes_of_batch"] = r.Nodes
+					s["logic"] = r.Logic
+					s["discharged_by_all_of"] = r.Solvers
 				}
 				samples = append(samples, s)
 				if len(samples) >= 40 {
@@ -476,6 +516,8 @@ func run() int {
 			"functions_under_contract": underContract,
 			"auto_transparent_callees": sortedKeys(auto),
 			"by_solver": bySolver,
+			"batch_mode": map[string]interface{}{"batches": batchStats.Batches, "checks": batchStats.Checks, "decided_in_batch": batchStats.Decided,
+				"note": "obligations of one function instance share one incremental script (push/pop per obligation); every solver answers every check; an obligation is decided in batch mode only if some solver gives the expected answer and none the opposite; the rest are raced individually"},
 			"solver_time_s": round(solverTime),
 			"load_s": round(loadS), "generate_s": round(genS), "solve_wall_s": round(solveS),
 			"per_query_timeout_s": timeout,
